@@ -591,6 +591,31 @@ pub fn exec(e: &mut Value, st: &mut St) {
         "forms" => {
             crate::forms::forms(e);
         }
+        "const" => {
+            let d = match gs(e, "name") {
+                "ZERO" => Decimal::ZERO,
+                "ONE" => Decimal::ONE,
+                "NEG_ONE" => Decimal::NEG_ONE,
+                "TWO" => Decimal::TWO,
+                "TEN" => Decimal::TEN,
+                "MAX" => Decimal::MAX,
+                "MIN" => Decimal::MIN,
+                "DELTA" => Decimal::DELTA,
+                "default" => Decimal::default(),
+                "nt_zero" => <Decimal as Zero>::zero(),
+                "nt_one" => <Decimal as One>::one(),
+                "MAX_N_FRAC_DIGITS" => Decimal::from(MAX_N_FRAC_DIGITS),
+                other => panic!("unknown constant {}", other),
+            };
+            e["out"] = od(d).json();
+        }
+        "intratio" => {
+            let ty = gs(e, "ty").to_string();
+            let v = parse_num(&e["v"]);
+            let (n, d) = with_int!(ty.as_str(), v, |i| (AsIntegerRatio::numerator(i), AsIntegerRatio::denominator(i)));
+            e["num"] = num(n);
+            e["den"] = num(d);
+        }
         other => panic!("unknown event kind {}", other),
     }
 }
